@@ -103,6 +103,10 @@ func genC10(r *mrand.Rand, id string) c10Case {
 	for i := 0; i < na; i++ {
 		s.Attach = append(s.Attach, file())
 	}
+	if r.Intn(5) == 0 {
+		// a caller-defined boundary; some need quoting in the Content-Type parameter
+		s.Boundary = gen.Pick(r, []string{"----=_NextPart_000_0001", "next part 0001", "simple-boundary-1", "b(1)?=x:y", strings.Repeat("Z", 64)})
+	}
 	return c10Case{Spec: s, Date: "Tue, 03 Mar 2026 10:11:12 +0100"}
 }
 
@@ -416,7 +420,7 @@ func runC10Case(r *ev.Run, c c10Case) {
 
 func runC10(r *ev.Run, rep *ev.ReplayDoc) ev.Summary {
 	sum := ev.Summary{
-		Rule: "seeded messages within the parser's feature set (UTF-8 text/plain and text/html bodies and alternatives, 0-2 embeds, 0-2 attachments, QP/base64/8bit/7bit, subjects and display names needing RFC 2047, file names over printable Unicode incl. blanks, ';' and '=') are rendered, parsed with EMLToMsgFromString, and rendered again. Model M0 from the spec, M1 from the parsed Msg's getters, M2 from the re-rendered bytes via the harness reader; M1 == M0 and M2 == M0 with nothing added, re-rendered message without duplicated singleton fields, structural problems or file names whose charset label contradicts their octets. non-trivial = >=2 leaves; distinct by (shape, subject)",
+		Rule: "seeded messages within the parser's feature set (UTF-8 text/plain and text/html bodies and alternatives, 0-2 embeds, 0-2 attachments, QP/base64/8bit/7bit, subjects and display names needing RFC 2047, file names over printable Unicode incl. blanks, ';' and '=', caller-defined boundaries incl. ones that need quoting) are rendered, parsed with EMLToMsgFromString, and rendered again. Model M0 from the spec, M1 from the parsed Msg's getters, M2 from the re-rendered bytes via the harness reader; M1 == M0 and M2 == M0 with nothing added, re-rendered message without duplicated singleton fields, structural problems or file names whose charset label contradicts their octets. non-trivial = >=2 leaves; distinct by (shape, subject)",
 		Assumptions: []string{
 			"a case is only judged if the harness reader reads M0 back from the first rendering (C01's guarantee); header text compares after RFC 2047 decoding and blank-run collapsing; dates compare as instants",
 		},
